@@ -390,7 +390,8 @@ def run(tier):
         "buffer provenance (A2); for each of the four variants the rendered templates are self-consistent: header names lower-case, "
         "sorted and equal to the signed-headers line and to SignedHeaders= in the result, the credential scope in the result equals "
         "the scope signed and the date is the date part of the timestamp's sample, the payload hash is hex(SHA-256(body)) and is what "
-        "is returned, query parameters sorted and returned unchanged plus the signature (A3). Error paths are C14's. "
+        "is returned, query parameters sorted and returned unchanged plus the signature (A3); no argument of the templates changes value between two "
+        "uses (A3-stable); util/asprintf.c hands back the complete formatted string (A5, relational); hexify's table and layout (C17's rules). Error paths are C14's. "
         "Not decided: HMAC/SHA-256 values (C01), percent-encoding (the interface does none).",
         trusted=["strftime/gmtime_r", "HMAC_SHA256_Buf/SHA256_Buf/hexify (C01, C17)"])
     prog = ir.Program([UNIT, "alg/sha256.c", "alg/sha1.c", "alg/md5.c"], cdb.HOST)
